@@ -438,6 +438,7 @@ func (m *Muxer) Close() {
 	m.mutex.Unlock()
 
 	m.cond.Broadcast()
+	verifYield("mux.close.afterBroadcast")
 
 	for _, stream := range m.streams {
 		stream.close()
@@ -528,6 +529,7 @@ func (m *Muxer) rotateParts(nextDTS time.Duration) error {
 	if err != nil {
 		return err
 	}
+	verifYield("mux.rotateParts.beforeBroadcast")
 
 	m.cond.Broadcast()
 
@@ -565,6 +567,7 @@ func (m *Muxer) rotateSegments(
 	if err != nil {
 		return err
 	}
+	verifYield("mux.rotateSegments.beforeBroadcast")
 
 	m.cond.Broadcast()
 
